@@ -205,6 +205,10 @@ func runC01(c *fw.Case) { runStrategyScenario(c, "C01") }
 
 // runStrategyScenario is the request-sequence scenario shared by C01 and the real-loop mode of C05.
 func runStrategyScenario(c *fw.Case, prop string) {
+	if c.Index%8 == 7 { // second program family: compiled packages under the real wazero VM
+		runCompiledScenario(c, prop)
+		return
+	}
 	s := newScen(c, gen.PkgOpts{})
 	defer s.close()
 	outs := s.outputs()
